@@ -95,6 +95,45 @@ def compare(ast, sm, schema, text, rng=None):
                     out.append(("delivered-object-not-in-tree", "handler %s got %r" % (nm, v)))
                     break
     if distinct:
+        # 1a. one map OBJECT used for several calls and edited in between without changing its
+        #     size: each call answers for the map as it is then; and with every warning turned
+        #     into an error (the handler has nothing to warn about)
+        import warnings
+        calls[:] = []
+        m1 = {nm: recorder(nm) for nm in distinct}
+        m1["zz-not-needed"] = recorder("zz")
+        try:
+            with warnings.catch_warnings():
+                warnings.simplefilter("error")
+                handler(m1)
+        except Exception as e:  # noqa
+            out.append(("complete-map-with-an-extra-name-raises:%s" % type(e).__name__, repr(e)[:200]))
+        else:
+            if [c[0] for c in calls] != names:
+                out.append(("wrong-call-order-or-count", "same map object, first call: %r expected %r" % ([c[0] for c in calls], names)))
+            victim = distinct[-1]
+            m1[victim] = None                      # same object, same size
+            calls[:] = []
+            try:
+                handler(m1)
+            except Exception as e:  # noqa
+                out.append(("none-map-raises", "same map object, second call: %r" % (e,)))
+            else:
+                exp = [nm for nm in names if nm != victim]
+                if [c[0] for c in calls] != exp:
+                    out.append(("none-entry-not-skipped", "same map object edited in place: called %r expected %r" % ([c[0] for c in calls], exp)))
+            del m1[victim]
+            m1["zz-other"] = recorder("zz2")       # same size again, one needed name gone
+            calls[:] = []
+            try:
+                handler(m1)
+            except ZConfig.ConfigurationError:
+                if calls:
+                    out.append(("called-before-refusing-incomplete-map", "same map object edited in place"))
+            except Exception as e:  # noqa
+                out.append(("incomplete-map:wrong-exception", repr(e)))
+            else:
+                out.append(("incomplete-map-accepted", "same map object edited in place: %r missing" % victim))
         # 1b. callables that are false in a boolean context are still callables (only None skips)
         calls[:] = []
 
